@@ -45,7 +45,7 @@ def handle (l : Line) : Option Verdict :=
       if l.outStr "err" == some "1" then
         verdict [("impl_model_error", (Impl.Schema.build els).isNone)]
           [("wellformed_schema_accepted", match parseTree els with
-              | some root => !(groupsNonEmpty root)
+              | some root => !(groupsNonEmpty root && typed root)
               | none => true)]
       else match l.outNat "n", (l.outStr "leaves").bind (parseList parseLeaf) with
       | some n, some lv =>
@@ -53,7 +53,7 @@ def handle (l : Line) : Option Verdict :=
         let prop : List (String × Bool) :=
           match parseTree els with
           | some root =>
-            if groupsNonEmpty root then [("leaves_and_levels_match_spec", lv == leaves root && n == (leaves root).length)]
+            if groupsNonEmpty root && typed root then [("leaves_and_levels_match_spec", lv == leaves root && n == (leaves root).length)]
             else []
           | none => []
         verdict [("impl_model_leaves", m == lv), ("impl_model_count", Impl.Schema.countLeaves els == n)] prop
@@ -67,7 +67,7 @@ def handle (l : Line) : Option Verdict :=
       let prop : List (String × Bool) :=
         match parseTree els with
         | some root =>
-          if groupsNonEmpty root then
+          if groupsNonEmpty root && typed root then
             let want : Int := match (leaves root).findIdx? (fun lf => (els[lf.elemIdx]?.map (·.info.name)) == some nm) with
               | some i => i | none => -1
             [("find_by_name", want == r)]
